@@ -40,7 +40,13 @@
 typedef Rsp (*T12cRun)(Buf *b, const char *label);
 static T12cRun t12c_run;
 typedef struct { uint32_t handle; uint8_t nonceEven[20]; uint8_t nonceOdd[20]; uint8_t secret[20];   /* HMAC key: entity secret (OIAP) or OSAP shared secret */
-                 uint8_t nonceEvenOSAP[20]; int osap; int live; uint16_t et; uint32_t ev; } T12cSess;
+                 uint8_t nonceEvenOSAP[20]; int osap; int live; uint16_t et; uint32_t ev;
+                 uint8_t entSecret[20], nonceOddOSAP[20];      /* OSAP: what the shared secret was derived from */ } T12cSess;
+/* what the last authorized request / its answer carried, for a judge that recomputes the HMACs itself (Lean): the TRUE key
+ * and nonceEven of the session, and the bytes as they were SENT (after any deliberate corruption) */
+typedef struct { int have_req, have_rsp, osap, corrupt; uint8_t key[20], es[20], neo[20], noo[20], ne[20], no[20], cont, mac[20];
+                 uint8_t pd[6200]; uint32_t pdlen; uint8_t rne[20], rcont, rmac[20]; uint8_t rpd[6200]; uint32_t rpdlen; } T12cAuthLog;
+static T12cAuthLog g12c_log;
 typedef struct { int have_ek, have_owner; uint8_t ek_n[256]; uint32_t ek_e; uint8_t ownerAuth[20], srkAuth[20]; } T12cWorld;
 static T12cWorld g12c;
 
@@ -185,6 +191,7 @@ static uint32_t t12c_osap(Buf *b, T12cSess *s, uint16_t entityType, uint32_t ent
     if (r.len != 54) return T12C_BAD;
     s->handle = g32(r.p + 10); memcpy(s->nonceEven, r.p + 14, 20); memcpy(s->nonceEvenOSAP, r.p + 34, 20);
     memcpy(m, s->nonceEvenOSAP, 20); memcpy(m + 20, oddOSAP, 20);
+    memcpy(s->entSecret, entitySecret, 20); memcpy(s->nonceOddOSAP, oddOSAP, 20);
     t12c_hmac(s->secret, entitySecret, m, 40); s->live = 1;
     return 0;
 }
@@ -197,14 +204,28 @@ static uint32_t t12c_flush_specific(Buf *b, uint32_t handle, uint32_t resourceTy
 
 /* ---------- authorization trailers ---------- */
 static void t12c_auth_append_at(Buf *b, int nHandleBytes, size_t paramEnd, T12cSess *s, int continueSession, int corrupt, int keepOdd) {
+    /* corrupt: 0 none, 1 one bit of the HMAC flipped, 2 stale nonceEven (zeros), 3 wrong secret, 4 continueAuthSession flipped after
+       the HMAC was computed, 5 the last parameter byte altered after the HMAC was computed (1 when there is no parameter) */
     uint8_t dig[20], mac[20], key[20], zero[20] = {0};
     size_t ps = 10 + (size_t)nHandleBytes;
     if (paramEnd > b->n) paramEnd = b->n;
+    int first = (paramEnd == b->n);                               /* the first trailer of the command */
+    if (corrupt == 5 && !(ps < paramEnd)) corrupt = 1;
     t12c_sha1_3(dig, b->p + 6, 4, b->p + (ps <= paramEnd ? ps : paramEnd), ps <= paramEnd ? paramEnd - ps : 0, NULL, 0);
     if (!keepOdd) t12c_rand(s->nonceOdd, 20);
     memcpy(key, s->secret, 20); if (corrupt == 3) key[0] ^= 0x80;
     t12c_authmac(mac, key, dig, corrupt == 2 ? zero : s->nonceEven, s->nonceOdd, continueSession ? 1 : 0);
     if (corrupt == 1) mac[rnd(20)] ^= (uint8_t)(1u << rnd(8));
+    if (corrupt == 4) continueSession = !continueSession;
+    if (corrupt == 5) b->p[paramEnd - 1] ^= 0x01;
+    if (first) {
+        T12cAuthLog *g = &g12c_log; memset(g, 0, sizeof *g);
+        g->have_req = 1; g->osap = s->osap; g->corrupt = corrupt;
+        memcpy(g->key, s->secret, 20); memcpy(g->es, s->entSecret, 20); memcpy(g->neo, s->nonceEvenOSAP, 20); memcpy(g->noo, s->nonceOddOSAP, 20);
+        memcpy(g->ne, s->nonceEven, 20); memcpy(g->no, s->nonceOdd, 20); g->cont = continueSession ? 1 : 0; memcpy(g->mac, mac, 20);
+        size_t n = ps <= paramEnd ? paramEnd - ps : 0; if (n > sizeof g->pd - 4) n = sizeof g->pd - 4;
+        memcpy(g->pd, b->p + 6, 4); memcpy(g->pd + 4, b->p + ps, n); g->pdlen = (uint32_t)(4 + n);
+    }
     b_u32(b, s->handle); b_bytes(b, s->nonceOdd, 20); b_u8(b, continueSession ? 1 : 0); b_bytes(b, mac, 20);
 }
 static void t12c_auth_append(Buf *b, int nHandleBytes, T12cSess *s, int continueSession, int corrupt) {
@@ -219,6 +240,11 @@ static int t12c_auth_verify(const Rsp *r, uint32_t ordinal, int nOutHandleBytes,
     memcpy(hd, r->p + 6, 4); hd[4] = ordinal >> 24; hd[5] = ordinal >> 16; hd[6] = ordinal >> 8; hd[7] = ordinal;
     t12c_sha1_3(dig, hd, 8, r->p + start, end - start, NULL, 0);
     t12c_authmac(mac, s->secret, dig, t, s->nonceOdd, t[20]);
+    if (which == 0) {
+        T12cAuthLog *g = &g12c_log; size_t n = end - start; if (n > sizeof g->rpd - 8) n = sizeof g->rpd - 8;
+        g->have_rsp = 1; memcpy(g->rne, t, 20); g->rcont = t[20]; memcpy(g->rmac, t + 21, 20);
+        memcpy(g->rpd, hd, 8); memcpy(g->rpd + 8, r->p + start, n); g->rpdlen = (uint32_t)(8 + n);
+    }
     memcpy(s->nonceEven, t, 20);
     if (!t[20]) s->live = 0;
     return memcmp(mac, t + 21, 20) == 0;
